@@ -14,16 +14,16 @@ Driver of C18. One request per sheet:
 * sheet: rows joined by `/`, cells joined by `,`; cell `_` | `i<int>` | `t<str>`; `-` = row without
   cells, `=` = sheet without rows. Coordinates are the usual ones (`mkSheet`).
 
-Reply: one token per yielded result (`None` or the attributes joined by `|`, each
+  `fill <a|f> <sheet>` — reply: the cells of `fillSheet` of that sheet, as their coordinates
+  (rows joined by `/`, cells by `,`) or `err:IndexError` (diagnostic line: ties the specification
+  of the ladder theorem to the filled sheet the oracle builds; the real code is not involved)
+
+Reply to `read`: one token per yielded result (`None` or the attributes joined by `|`, each
 `<value>^<origin>^<probe origin>[^<key>=<origin>,…]`), then `end` or `err:<Exception>`.
 -/
 open Ak Ak.Proto Xls
 
-def splitCh (sep : Char) (s : List Char) : List (List Char) :=
-  (s.foldr (fun c acc =>
-    match acc with
-    | cur :: rest => if c = sep then [] :: cur :: rest else (c :: cur) :: rest
-    | [] => [[c]]) [[]])
+def splitCh (sep : Char) (s : List Char) : List (List Char) := splitOnChar sep s
 
 def natOf (s : List Char) : Option Nat := (String.ofList s).toNat?
 def intOf (s : List Char) : Option Int := parseInt (String.ofList s)
@@ -42,12 +42,23 @@ def parseV : List Char → Option StdV
   | 's' :: r => (parseStr r).map .str
   | _ => none
 
+def showRes : Except Err (List Char) → String
+  | .ok s => "o" ++ showStr s
+  | .error e => "E" ++ e.name
+
+def sortDedup (l : List (List Char)) : List (List Char) :=
+  (sortCps l).foldr (fun x acc => match acc with
+    | y :: _ => if x = y then acc else x :: acc
+    | [] => [x]) []
+
 def showV : StdV → String
   | .none => "N"
   | .bool true => "bT"
   | .bool false => "bF"
   | .int n => "i" ++ toString n
   | .str s => "s" ++ showStr s
+  | .list l => "L[" ++ ";".intercalate (l.map showStr) ++ "]"
+  | .set l => "T[" ++ ";".intercalate ((sortDedup l).map showStr) ++ "]"
 
 def parseRule (s : List Char) : Option (Rule StdV) :=
   match splitCh ':' s with
@@ -72,15 +83,6 @@ def parseCell : List Char → Option Val
 def parseSheet (s : List Char) : Option (List (List Val)) :=
   if s = ['='] then some [] else
   (splitCh '/' s).mapM fun r => if r = ['-'] then some [] else (splitCh ',' r).mapM parseCell
-
-def showRes : Except Err (List Char) → String
-  | .ok s => "o" ++ showStr s
-  | .error e => "E" ++ e.name
-
-def sortDedup (l : List (List Char)) : List (List Char) :=
-  (sortCps l).foldr (fun x acc => match acc with
-    | y :: _ => if x = y then acc else x :: acc
-    | [] => [x]) []
 
 def showVal : AVal StdV → String
   | .plain v => showV v
@@ -117,6 +119,18 @@ def handle (line : String) : String :=
       " ".intercalate (out.objs.map (showObj probe (sortDedup keys)) ++
         [match out.err with | none => "end" | some e => "err:" ++ e.name])
     | _, _, _, _, _, _, _ => "bad-op"
+  | [['f','i','l','l'], stop, sheet] =>
+    -- the sheet the ladder theorem speaks about (`fillSheet`), as the coordinates of its cells
+    match (if stop = ['a'] then some Stop.blankAll else if stop = ['f'] then some Stop.blankFirst else none),
+          parseSheet sheet with
+    | some stop, some rows =>
+      match fillSheet stop (mkSheet rows) with
+      | .error e => "err:" ++ e.name
+      | .ok s' =>
+        if s'.isEmpty then "=" else
+        "/".intercalate (s'.map fun r =>
+          if r.isEmpty then "-" else ",".intercalate (r.map fun c => String.ofList c.coord))
+    | _, _ => "bad-op"
   | _ => "bad-op"
 
 def main : IO Unit := run handle
